@@ -4,6 +4,8 @@ import checklib
 
 
 def regen(ctx):
+    if os.environ.get("C20_NO_SKEL"):   # development aid: judge a mutation by the dynamic tie alone
+        return []
     f = "app/daemon/daemon.go:OrderedDaemon."
     return checklib.regen_skeletons(ctx, [f + m for m in (
         "BackgroundWorker", "runBackgroundWorker", "Start", "Run", "waitGroupsForAllShutdownOrders", "shutdown",
